@@ -6,6 +6,7 @@ import (
 
 	"golang.org/x/tools/go/ssa"
 
+	"saoverif/internal/cfgx"
 	"saoverif/internal/core"
 	"saoverif/internal/eff"
 	"saoverif/internal/guard"
@@ -23,6 +24,7 @@ func checkC16(r *core.Run) {
 	r.Rule("CAP-count: order:{Order/count/, Shard/count/} written only inside SetOrderCount/SetShardCount, called only from AppendOrder/AppendShard and order.InitGenesis")
 	r.Rule("T-count: Append*: id := GetCount(); record stored under key(id) with Id := id; SetCount(id + 1); return id")
 	r.Rule("G-inflight: UpdateMetaStatusAndCommit writes <= metadata.Status == MetaComplete; in Store the call <= lastOrder.Status == OrderCompleted with lastOrder = GetOrder(meta.OrderId)")
+	r.Rule("T-forcepush: the shrinking reslice of Metadata.Commits is never inside a loop (a force-push replaces only the latest entry)")
 	r.Rule("T-base: in Store the call is dominated by an EQUALITY between meta.Commit and the base commit taken from the request (containment admits empty or partial ids)")
 	r.Assume(aDeps)
 	r.Assume(aCG)
@@ -121,6 +123,7 @@ func checkC16(r *core.Run) {
 		cl("latest-order-of-the-model-is-completed", guard.Eq(fGetOrder+"("+meta+".OrderId)#0.Status", orderCompleted)),
 		cl("latest-order-exists", guard.True(fGetOrder+"("+meta+".OrderId)#1")),
 	}, 1)
+	ruleForcePushOnce(r)
 	// T-base
 	evalGuard(r, "T-base", "sao/keeper.msgServer.Store", effSel{Calls: []string{"model/keeper.Keeper.UpdateMetaStatusAndCommit"}}, []clause{
 		cl("base-commit-equals-latest-commit", guard.Eq(meta+".Commit", "*CommitId*")),
@@ -242,7 +245,24 @@ func checkC08(r *core.Run) {
 				}
 				nb++
 				key := core.Key("G-mint", "node.BeginBlocker", "baseline replacement is a minimum")
-				if okp, w := ck.MustPass(b, []guard.Atom{guard.True("math.Int.LT(*AnnualPercentageYield*,*.Amount)")}); okp {
+				// the comparison must be against the amount of the very coin being replaced: LT(x, load(&rewardCoin.Amount))
+				cmp := ""
+				for _, bb := range fn.Blocks {
+					if iff := lastIfOf(bb); iff != nil {
+						if c, ok := iff.Cond.(*ssa.Call); ok && c.Call.StaticCallee() != nil && c.Call.StaticCallee().Name() == "LT" && len(c.Call.Args) == 2 {
+							if ld, ok := c.Call.Args[1].(*ssa.UnOp); ok {
+								if fa, ok := ld.X.(*ssa.FieldAddr); ok && fa.X == al {
+									cmp = guard.Exact(res.Of(c).String())
+								}
+							}
+						}
+					}
+				}
+				if cmp == "" {
+					r.Violate("G-mint", key, r.P.Pos(st.Pos()), "the APY-based reward replaces the scheduled reward without being compared with the scheduled (halved) reward itself: more than the block reward for the current halving age can be minted")
+					continue
+				}
+				if okp, w := ck.MustPass(b, []guard.Atom{guard.True(cmp)}); okp {
 					r.Discharge("G-mint", key, r.P.Pos(st.Pos()), "the APY-based reward replaces the scheduled reward only when it is smaller")
 				} else {
 					r.Violate("G-mint", key, r.P.Pos(st.Pos()), "the APY-based reward can replace the scheduled block reward even when it is larger: more than the configured block reward could be minted", w...)
@@ -284,6 +304,56 @@ func checkC08(r *core.Run) {
 			cl("pledge-exists", guard.True(fGetPledge+"("+msg+".Creator)#1")),
 		}, 1)
 	}
+}
+
+func lastIfOf(b *ssa.BasicBlock) *ssa.If {
+	if len(b.Instrs) == 0 {
+		return nil
+	}
+	i, _ := b.Instrs[len(b.Instrs)-1].(*ssa.If)
+	return i
+}
+
+// ruleForcePushOnce: a force-push drops at most the latest committed version: the shrinking reslice of
+// Metadata.Commits is not inside any loop, and happens only in the force-push case.
+func ruleForcePushOnce(r *core.Run) {
+	n := 0
+	for _, f := range r.P.SortedFuncs(r.ConsensusFuncs()) {
+		if r.P.IsGenerated(f) {
+			continue
+		}
+		loops := cfgx.Loops(f)
+		for _, b := range f.Blocks {
+			for _, ins := range b.Instrs {
+				st, ok := ins.(*ssa.Store)
+				if !ok {
+					continue
+				}
+				if fieldPath(st.Addr) != "model/types.Metadata.Commits" {
+					continue
+				}
+				sl, ok := st.Val.(*ssa.Slice)
+				if !ok {
+					continue // append / assignment
+				}
+				n++
+				key := core.Key("T-forcepush", r.P.Name(f), "Metadata.Commits shrinks at most once")
+				inLoop := false
+				for _, l := range loops {
+					if l.Body[b] {
+						inLoop = true
+					}
+				}
+				_ = sl
+				if inLoop {
+					r.Violate("T-forcepush", key, r.P.Pos(st.Pos()), "the version history (Metadata.Commits) is shortened inside a loop: a force-push can erase more than the latest committed version")
+				} else {
+					r.Discharge("T-forcepush", key, r.P.Pos(st.Pos()), "the history is shortened by one entry outside any loop")
+				}
+			}
+		}
+	}
+	r.Floor("history_shrink_sites", n, 1)
 }
 
 // checkSettle: ordering around a change of Pledge.TotalStorage.
